@@ -118,7 +118,7 @@ theorem goodB_purgeCtrOk {c : Case} (h : goodB c = true) : c.PurgeCtrOk := by
     | some src =>
       rw [hs] at hh
       simp only [Bool.and_eq_true, beq_iff_eq, List.all_eq_true, Bool.or_eq_true, bne_iff_ne, ne_eq] at hh
-      refine ⟨src, rfl, hh.1, ?_⟩
+      refine ⟨src, rfl, hh.1.1, hh.1.2, ?_⟩
       intro s' hs' ha
       rcases hh.2 s' hs' with h1 | h1
       · exact h1
@@ -138,30 +138,30 @@ theorem goodB_purgeCtrOk {c : Case} (h : goodB c = true) : c.PurgeCtrOk := by
     | some i => exact key a i (by simpa [opRefB] using hr)
   | _ => trivial
 
-theorem caseOf?_good {t : Term} {c : Case} (h : caseOf? t = some c) : ∃ g, c.Good g := by
+theorem mkCase?_goodB {ss as os : List Term} {shard : Nat} {c : Case} (h : mkCase? ss as os shard = some c) :
+    goodB c = true := by
+  unfold mkCase? at h
+  simp only [bind, Option.bind_eq_some_iff] at h
+  obtain ⟨srcs, _, attrs, _, ops, _, u1, _, u2, hu, hc⟩ := h
+  simp only [pure, Option.some.injEq] at hc
+  subst hc
+  by_cases hg : goodB { srcs := srcs, attrs := attrs, ops := ops, shard := shard } = true
+  · exact hg
+  · simp [guardO, hg] at hu
+
+theorem caseOf?_goodB {t : Term} {c : Case} (h : caseOf? t = some c) : goodB c = true := by
   unfold caseOf? at h
   split at h
-  · rename_i ss as os
-    simp only [bind, Option.bind_eq_some_iff] at h
-    obtain ⟨srcs, _, attrs, _, ops, _, u, hu, hc⟩ := h
-    simp only [pure, Option.some.injEq] at hc
-    subst hc
-    by_cases hg : goodB { srcs := srcs, attrs := attrs, ops := ops } = true
-    · exact goodB_sound hg
-    · simp [guardO, hg] at hu
+  · exact mkCase?_goodB h
+  · simp only [bind, Option.bind_eq_some_iff] at h
+    obtain ⟨k, _, hk⟩ := h
+    exact mkCase?_goodB hk
   · simp at h
 
-theorem caseOf?_purgeCtrOk {t : Term} {c : Case} (h : caseOf? t = some c) : c.PurgeCtrOk := by
-  unfold caseOf? at h
-  split at h
-  · rename_i ss as os
-    simp only [bind, Option.bind_eq_some_iff] at h
-    obtain ⟨srcs, _, attrs, _, ops, _, u, hu, hc⟩ := h
-    simp only [pure, Option.some.injEq] at hc
-    subst hc
-    by_cases hg : goodB { srcs := srcs, attrs := attrs, ops := ops } = true
-    · exact goodB_purgeCtrOk hg
-    · simp [guardO, hg] at hu
-  · simp at h
+theorem caseOf?_good {t : Term} {c : Case} (h : caseOf? t = some c) : ∃ g, c.Good g :=
+  goodB_sound (caseOf?_goodB h)
+
+theorem caseOf?_purgeCtrOk {t : Term} {c : Case} (h : caseOf? t = some c) : c.PurgeCtrOk :=
+  goodB_purgeCtrOk (caseOf?_goodB h)
 
 end Rbgp.Rib
